@@ -235,27 +235,13 @@ def _flat_fields(node):
 
 def _inexact(node):
     """Sub-expressions between `node` and the fields / parameters it reads that are not moves, conversions or joins
-    (min / max / arithmetic / a constant alternative): the value is then not the source itself."""
-    out = []
-    stk = [node]
-    seen_ = set()
-    while stk:
-        x = stk.pop()
-        if id(x) in seen_:
-            continue
-        seen_.add(id(x))
-        k = x.kind
-        if k in ("field", "downcast", "param"):
-            continue            # a place chain below a field read: the source itself
-        if k in ("ref", "deref", "cast"):
-            stk.append(x[1])
-        elif k == "phi":
-            stk.extend(x[1])
-        elif k == "call" and x[6] in ("into", "from", "clone", "deref", "as_ref", "borrow", "to_owned", "get", "load") and x[3]:
-            stk.append(x[3][0])
-        else:
-            out.append(fmt(x)[:120])
-    return out
+    (min / max / arithmetic / a constant alternative / a cast to fewer than 32 bits): the value is then not the source itself."""
+    from an import inexact_steps
+
+    def src(x):
+        # a place chain below a field read of a struct / payload, or a parameter: the source itself
+        return x.kind == "param" or (x.kind == "field" and x[3] and not str(x[3]).startswith("core::")) or x.kind == "downcast"
+    return inexact_steps(node, src, 32)
 
 
 def check_r3_r4(facts, rep, crate, inter):
@@ -391,7 +377,11 @@ def check_r5(facts, rep, crate, inter):
             c = strip(cnt)
             ok_cnt = c.kind == "bin" and c[1].startswith("Add") and const_eval(c[3]) == 1 and \
                 _flat_fields(c[2]) == {"MuxStream.psh_recvd_since"}
-            if not ok_cnt:
+            narrow = [x for x in walk(cnt) if x.kind == "cast" and "IntToInt" in str(x[3]) and str(x[2]) in ("u8", "i8", "u16", "i16")]
+            if narrow:
+                rep.bad(rid, "ack-count", where, "the acknowledged count passes through a cast to %s: counts of 2^16 and above are acknowledged "
+                                                 "short and the peer's window never refills" % narrow[0][2])
+            elif not ok_cnt:
                 rep.bad(rid, "ack-count", where, "acknowledged count is `%s`, expected counter + 1" % fmt(c))
             else:
                 rep.ok(rid, "ack-count", where, "count = psh_recvd_since + 1")
